@@ -219,26 +219,26 @@ impl<T: Clone> WithSpec<T> {
     ) {
         if self.val.is_some() {
             // We already have a value, so need to check.
-            if self.important && !important {
-                // important takes priority over not important.
-                return;
-            }
-            // importance is the same.  Next is checking the origin.
-            {
-                use StyleOrigin::*;
-                match (self.origin, origin) {
-                    (Agent, Agent) | (User, User) | (Author, Author) => {
-                        // They're the same so continue the comparison
-                    }
-                    (mine, theirs) => {
-                        if (important && theirs > mine) || (!important && mine > theirs) {
-                            return;
-                        }
-                    }
+            if self.important != important {
+                if self.important {
+                    // important takes priority over not important.
+                    return;
                 }
-            }
-            // We're now from the same origin an importance
-            if specificity < self.specificity {
+                // The new value is important and the old one isn't, so replace.
+            } else if self.origin != origin {
+                // importance is the same, so the origin decides: for normal
+                // declarations agent < user < author, and the reverse order
+                // for important ones.
+                let new_wins = if important {
+                    origin < self.origin
+                } else {
+                    origin > self.origin
+                };
+                if !new_wins {
+                    return;
+                }
+            } else if specificity < self.specificity {
+                // Same origin and importance: the more specific (or later) wins.
                 return;
             }
         }
